@@ -358,6 +358,7 @@ class Server:
         # RFC 5804 ABNF literals are case-insensitive: a server may write the marker of the
         # active script as ACTIVE, active, Active
         self.active_marker = b"ACTIVE"
+        self.lookalike_texts = False
         self.users = users or {}
         self.scripts = dict(scripts or {})  # name(bytes) -> content(bytes), ordered
         self.active = active
@@ -392,10 +393,19 @@ class Server:
     def emit(self, b):
         self.out += b
 
+    # human-readable texts that look like protocol lines, sent as literals (RFC 5804 lets a
+    # server word and encode its texts as it likes)
+    LOOKALIKE_TEXTS = [b"OK, all fine", b'OK "fake"', b"OK", b"NO such luck", b'NO (X) "y"', b"BYE",
+                       b"OK\r\nOK", b'"SASL" "PLAIN"', b"{3}"]
+
     def final(self, kind, code=None, text=None):
+        how = self.how()
+        if self.lookalike_texts:
+            text = self.rng.choice(self.LOOKALIKE_TEXTS)
+            how = "literal"
         self.last_status = (kind, code, text)
         self.status_log.append((self.ncmd, kind, code, text))
-        self.emit(status(kind, code, text, self.how()))
+        self.emit(status(kind, code, text, how))
 
     def cap_lines(self):
         out = b'"IMPLEMENTATION" "R-MS reference"\r\n'
@@ -431,7 +441,10 @@ class Server:
                 self.emit(b'NO "go away"\r\n')
                 return
             self.emit(self.cap_lines())
-            self.emit(self.greeting_status)
+            if self.lookalike_texts:
+                self.emit(status("OK", None, self.rng.choice(self.LOOKALIKE_TEXTS), "literal"))
+            else:
+                self.emit(self.greeting_status)
 
     def on_tls(self):
         self.tls = True
@@ -451,7 +464,11 @@ class Server:
             self.emit(b'NO "tls trouble"\r\n')
             return
         self.emit(self.cap_lines())
-        self.emit(b'OK "TLS negotiation successful."\r\n')
+        if self.lookalike_texts:
+            # the text names the handshake so that the trace checks still find this reply
+            self.emit(status("OK", None, b"OK TLS negotiation successful.", "literal"))
+        else:
+            self.emit(b'OK "TLS negotiation successful."\r\n')
         self.caps_sent_after_tls = True
 
     def violation(self, what):
